@@ -22,6 +22,7 @@ type c15Plant struct {
 	Reverse bool `json:"reverse_complemented"`
 	Subs    int  `json:"substitutions"`
 	Indels  int  `json:"indels"`
+	NearMin bool `json:"near_minimum_length_not_required"`
 }
 
 type c15Plan struct {
@@ -95,7 +96,7 @@ func init() {
 		Case:        c15Case,
 		MinDistinct: func(t string) int { return 40 },
 		Floors: func(string) map[string]int64 {
-			return map[string]int64{"pals_runs": 60, "hits_checked": 80, "planted_repeats": 80, "planted_reverse_strand": 20, "planted_recovered": 80, "self_comparison_runs": 10, "hits_with_errors": 20}
+			return map[string]int64{"pals_runs": 60, "hits_checked": 80, "planted_repeats": 80, "planted_reverse_strand": 20, "planted_recovered": 80, "self_comparison_runs": 10, "hits_with_errors": 20, "near_minimum_plants": 20}
 		},
 		Assumptions: []string{"planted copies do not overlap each other or (in self comparison) their source", "index memory is capped at 48 MB so that Optimise chooses a word size the sandbox can index",
 			"'comfortably above the threshold' is taken as an error rate of at most min(1-minId-0.04, 0.03); 'most of the planted copy' as 80%"},
@@ -172,6 +173,41 @@ func c15Case(r *obs.Run, i int) {
 		usedT = append(usedT, iv{a0, a0 + L})
 		usedQ = append(usedQ, iv{b0, p.B1})
 		pl.Plants = append(pl.Plants, p)
+	}
+	// near-minimum plants: the target copy is a few bases shorter than the minimum hit length, the query copy
+	// (the same letters with single-base insertions) reaches it. Such a pair need not be reported, but whatever
+	// is reported must still be at least the minimum length on both sequences.
+	if rng.Intn(2) == 0 {
+		for try := 0; try < 50; try++ {
+			d := 1 + rng.Intn(3)
+			lt := pl.MinHitLen - d
+			ins := d + rng.Intn(2)
+			a0 := rng.Intn(pl.TLen - lt)
+			b0 := rng.Intn(pl.QLen - lt - ins - 8)
+			ok := free(usedT, a0, a0+lt) && free(usedQ, b0, b0+lt+ins)
+			if pl.Self {
+				ok = ok && free(usedT, b0, b0+lt+ins) && free(usedQ, a0, a0+lt) && (b0 > a0+lt+20 || a0 > b0+lt+ins+20)
+			}
+			if !ok {
+				continue
+			}
+			w := append([]byte(nil), T[a0:a0+lt]...)
+			for x := 0; x < ins; x++ {
+				pos := 5 + rng.Intn(len(w)-10)
+				w = append(w[:pos], append([]byte{"ACGT"[rng.Intn(4)]}, w[pos:]...)...)
+			}
+			p := c15Plant{A0: a0, A1: a0 + lt, B0: b0, Reverse: rng.Intn(2) == 0, Indels: ins, NearMin: true}
+			if p.Reverse {
+				w = c15RevComp(w)
+			}
+			p.B1 = b0 + len(w)
+			copy(Q[b0:], w)
+			usedT = append(usedT, iv{a0, a0 + lt})
+			usedQ = append(usedQ, iv{b0, p.B1})
+			pl.Plants = append(pl.Plants, p)
+			r.Count("near_minimum_plants", 1)
+			break
+		}
 	}
 	scratch := c11Scratch(r)
 	defer os.RemoveAll(scratch)
@@ -275,6 +311,9 @@ func c15Case(r *obs.Run, i int) {
 		}
 	}
 	for _, p := range pl.Plants {
+		if p.NearMin {
+			continue
+		}
 		r.Count("planted_repeats", 1)
 		strand := 0
 		b0, b1 := p.B0, p.B1
